@@ -423,6 +423,78 @@ pub proof fn two_registrations_commute<C: ServerContext>(root0: HttpRouterNode<C
     assert((wbase + y1 + y2).to_multiset() =~= (wbase + y2 + y1).to_multiset());
 }
 
+// ---- whole registration histories ----
+#[verifier::reject_recursive_types(C)]
+pub struct Registration<C: ServerContext> { pub tm: Seq<Seq<char>>, pub e: ApiEndpoint<C>, pub mk: String }
+/// roots[0] --regs[0]--> roots[1] --regs[1]--> ... : every step is an ACCEPTED HttpRouter::insert (its contract)
+pub open spec fn history<C: ServerContext>(roots: Seq<HttpRouterNode<C>>, regs: Seq<Registration<C>>) -> bool {
+    &&& roots.len() == regs.len() + 1
+    &&& forall|i: int| 0 <= i < regs.len() ==> reg(#[trigger] roots[i], regs[i].tm, Set::empty(), regs[i].mk) is Some
+            && ins_rel(Some(roots[i]), regs[i].tm, roots[i + 1], regs[i].e, regs[i].mk)
+}
+/// what the registrations contribute to the lookup of path `p` under method name `k` (at the reached node): each
+/// endpoint whose method is `k` and whose template `p` leads down
+pub open spec fn contributed<C: ServerContext>(regs: Seq<Registration<C>>, p: Seq<String>, k: String) -> vstd::multiset::Multiset<ApiEndpoint<C>>
+    decreases regs.len()
+{
+    if regs.len() == 0 { vstd::multiset::Multiset::empty() }
+    else { contributed(regs.drop_last(), p, k).add(one_if(k == regs.last().mk && wmatch(regs.last().tm, p), regs.last().e).to_multiset()) }
+}
+/// C01 ("The outcome depends only on the set of registered endpoints and the request"): after ANY sequence of accepted
+/// registrations, what a lookup finds is what was there at the start plus exactly the matching registered endpoints
+pub proof fn after_any_history<C: ServerContext>(roots: Seq<HttpRouterNode<C>>, regs: Seq<Registration<C>>, p: Seq<String>, k: String)
+    requires history(roots, regs)
+    ensures hn(Some(roots.last()), p, Map::empty(), k).to_multiset()
+        == hn(Some(roots[0]), p, Map::empty(), k).to_multiset().add(contributed(regs, p, k)), // @a_lookup_finds_exactly_the_matching_registered_endpoints
+    decreases regs.len()
+{
+    if regs.len() == 0 {
+        assert(hn(Some(roots[0]), p, Map::empty(), k).to_multiset().add(vstd::multiset::Multiset::empty()) =~= hn(Some(roots[0]), p, Map::empty(), k).to_multiset());
+    } else {
+        let n = regs.len() as int;
+        let roots0 = roots.drop_last();
+        let regs0 = regs.drop_last();
+        assert(history(roots0, regs0)) by {
+            assert forall|i: int| 0 <= i < regs0.len() implies reg(#[trigger] roots0[i], regs0[i].tm, Set::empty(), regs0[i].mk) is Some
+                && ins_rel(Some(roots0[i]), regs0[i].tm, roots0[i + 1], regs0[i].e, regs0[i].mk) by {
+                assert(roots0[i] == roots[i] && roots0[i + 1] == roots[i + 1] && regs0[i] == regs[i]);
+            }
+        }
+        after_any_history(roots0, regs0, p, k);
+        let last = regs.last();
+        assert(roots0.last() == roots[n - 1]);
+        assert(roots0[0] == roots[0]);
+        registration_theorem(roots[n - 1], last.tm, roots[n], last.e, last.mk);
+        let before = hn(Some(roots[n - 1]), p, Map::empty(), k);
+        let x = one_if(k == last.mk && wmatch(last.tm, p), last.e);
+        assert(hn(Some(roots[n]), p, Map::empty(), k) == before + x);
+        vstd::seq_lib::lemma_multiset_commutative(before, x);
+        assert(hn(Some(roots.last()), p, Map::empty(), k).to_multiset()
+            =~= hn(Some(roots[0]), p, Map::empty(), k).to_multiset().add(contributed(regs, p, k)));
+    }
+}
+/// ... and that contribution does not depend on the order: swapping two neighbouring registrations leaves it unchanged
+/// (every reordering is a sequence of such swaps)
+pub proof fn contribution_is_order_independent<C: ServerContext>(pre: Seq<Registration<C>>, a: Registration<C>, b: Registration<C>, p: Seq<String>, k: String)
+    ensures contributed(pre.push(a).push(b), p, k) == contributed(pre.push(b).push(a), p, k) // @swapping_two_registrations_changes_nothing
+{
+    let ab = pre.push(a).push(b);
+    let ba = pre.push(b).push(a);
+    assert(ab.drop_last() =~= pre.push(a));
+    assert(ba.drop_last() =~= pre.push(b));
+    assert(pre.push(a).drop_last() =~= pre);
+    assert(pre.push(b).drop_last() =~= pre);
+    let xa = one_if(k == a.mk && wmatch(a.tm, p), a.e).to_multiset();
+    let xb = one_if(k == b.mk && wmatch(b.tm, p), b.e).to_multiset();
+    let c0 = contributed(pre, p, k);
+    assert(ab.last() == b && ba.last() == a && pre.push(a).last() == a && pre.push(b).last() == b);
+    assert(contributed(pre.push(a), p, k) == c0.add(xa));
+    assert(contributed(pre.push(b), p, k) == c0.add(xb));
+    assert(contributed(ab, p, k) == c0.add(xa).add(xb));
+    assert(contributed(ba, p, k) == c0.add(xb).add(xa));
+    assert(c0.add(xa).add(xb) =~= c0.add(xb).add(xa));
+}
+
 /// an endpoint already registered for the same path and method stands in the way of `ver`
 pub open spec fn blocks<C: ServerContext>(h: ApiEndpoint<C>, ver: ApiEndpointVersions) -> bool {
     version_conflict(h, ver) || f2(h, ver)
